@@ -262,6 +262,8 @@ func c16Carousel(c *Ctx) {
 			}
 			fcl := NewFlow(p, cl)
 			nApp, gated := 0, true
+			var appDst *ssa.FreeVar
+			elemOK := true
 			eachInstr(cl, func(in2 ssa.Instruction) {
 				c2, ok := in2.(*ssa.Call)
 				if !ok {
@@ -269,10 +271,16 @@ func c16Carousel(c *Ctx) {
 				}
 				if b, ok := c2.Call.Value.(*ssa.Builtin); ok && b.Name() == "append" {
 					nApp++
+					if ld, ok := c2.Call.Args[0].(*ssa.UnOp); ok {
+						appDst, _ = ld.X.(*ssa.FreeVar)
+					}
 					var elem string
 					storedInto(sliceBase(c2.Call.Args[1]), func(e ssa.Value) bool { elem = fcl.K.Key(e); return false })
 					// gate: id is not in the exclusion list (any slice other than the one appended to)
 					dst := fcl.K.Key(c2.Call.Args[0])
+					if elem != "p0" {
+						elemOK = false
+					}
 					if elem != "p0" || !falseOf(fcl.At(in2), func(k string) bool {
 						return strings.HasPrefix(k, "slices.Contains[") && strings.Contains(k, ", p0)") && !strings.Contains(k, "("+dst+",")
 					}) {
@@ -282,6 +290,39 @@ func c16Carousel(c *Ctx) {
 			})
 			if nApp == 1 && gated {
 				okCand = true
+			}
+			if nApp == 1 && !gated && elemOK {
+				// collect all signers first, then remove the recent authors: slices.DeleteFunc(signers, func(id) bool {
+				// return slices.Contains(lastAuthors, id) }) in the function that ran the iteration
+				eachInstr(hf, func(in3 ssa.Instruction) {
+					dc, ok := in3.(*ssa.Call)
+					if !ok || dc.Call.StaticCallee() == nil || !strings.HasPrefix(dc.Call.StaticCallee().String(), "slices.DeleteFunc") || len(dc.Call.Args) != 2 {
+						return
+					}
+					if !precedes(in, in3) && in.Block() != in3.Block() {
+						return
+					}
+					// the list filtered is the one the iteration appended to
+					same := false
+					if mc, ok := call.Call.Args[0].(*ssa.MakeClosure); ok && appDst != nil {
+						if ld, ok := dc.Call.Args[0].(*ssa.UnOp); ok {
+							for j, fv := range cl.FreeVars {
+								if fv == appDst && j < len(mc.Bindings) && mc.Bindings[j] == ld.X {
+									same = true
+								}
+							}
+						}
+					}
+					pf, okP := predicateFacts(hfl, dc.Call.Args[1])
+					if !okP || !same {
+						return
+					}
+					for _, f := range pf {
+						if f.Op == "true" && strings.HasPrefix(f.L, "slices.Contains[") && strings.Contains(f.L, ", elem)") {
+							okCand = true
+						}
+					}
+				})
 			}
 		})
 	}
